@@ -219,6 +219,12 @@ func (r *Replayer) build(pkgRel string) (string, error) {
 		return nil
 	})
 	repl[filepath.Join(repoDir, pkgRel, "zz_verif_replay_test.go")] = testFile
+	// native counterpart of the engine's dstore.NewStore redirect: the constructor first looks
+	// for a store the harness published for that URL (expvar registry), so that code which opens
+	// its object store by URL gets the harness's in-memory store in the replay too
+	if orig, patched, ok := patchedDstore(r.work); ok {
+		repl[orig] = patched
+	}
 	ovb, _ := json.Marshal(map[string]interface{}{"Replace": repl})
 	ovFile := filepath.Join(r.work, tag+"_overlay.json")
 	os.WriteFile(ovFile, ovb, 0o644)
@@ -231,6 +237,42 @@ func (r *Replayer) build(pkgRel string) (string, error) {
 	}
 	r.bins[pkgRel] = bin
 	return bin, nil
+}
+
+// patchedDstore writes a copy of dstore's stores.go whose NewStore consults the expvar registry.
+func patchedDstore(work string) (orig, patched string, ok bool) {
+	cmd := exec.Command("go", "list", "-m", "-f", "{{.Dir}}", "github.com/streamingfast/dstore")
+	cmd.Dir = repoDir
+	out, err := cmd.Output()
+	if err != nil {
+		return "", "", false
+	}
+	orig = filepath.Join(strings.TrimSpace(string(out)), "stores.go")
+	b, err := os.ReadFile(orig)
+	if err != nil {
+		return "", "", false
+	}
+	src := string(b)
+	sig := "func NewStore(baseURL, extension, compressionType string, overwrite bool, opts ...Option) (Store, error) {\n"
+	if !strings.Contains(src, sig) || !strings.Contains(src, "import (\n") {
+		return "", "", false
+	}
+	// only packages dstore already imports may be used (the module index fixes the import set of
+	// a module-cache package regardless of overlays): the rendezvous is net/http's default mux
+	if !strings.Contains(src, "\"strings\"") {
+		return "", "", false
+	}
+	hook := "\tif req, herr := http.NewRequest(\"GET\", \"http://verif-store.invalid/\"+strings.ReplaceAll(strings.ReplaceAll(baseURL, \":\", \"-\"), \"/\", \"-\"), nil); herr == nil {\n" +
+		"\t\tif h, pattern := http.DefaultServeMux.Handler(req); pattern != \"\" {\n\t\t\tif s, isStore := h.(Store); isStore {\n\t\t\t\treturn s, nil\n\t\t\t}\n\t\t}\n\t}\n"
+	src = strings.Replace(src, sig, sig+hook, 1)
+	if !strings.Contains(src, "\"net/http\"") {
+		src = strings.Replace(src, "import (\n", "import (\n\t\"net/http\"\n", 1)
+	}
+	patched = filepath.Join(work, "dstore_stores_patched.go")
+	if os.WriteFile(patched, []byte(src), 0o644) != nil {
+		return "", "", false
+	}
+	return orig, patched, true
 }
 
 type NativeResult struct {
